@@ -375,6 +375,24 @@ type MT struct{ base int }
 func (m *MT) Price(a int) int { return m.base*100 + a }
 
 //go:noinline
+func (m *MT) Half(a int) int { return m.base*100 + a + 10 }
+
+//go:noinline
+func (m *MT) Hal(a int) int { return m.base*100 + a + 20 }
+
+//go:noinline
+func (m *MT) Printf(a int) int { return m.base*100 + a + 30 }
+
+//go:noinline
+func (m *MT) Print(a int) int { return m.base*100 + a + 40 }
+
+//go:noinline
+func (m *MT) Perform(a int) int { return m.base*100 + a + 50 }
+
+//go:noinline
+func (m *MT) Sum(a int) int { return m.base*100 + a + 60 }
+
+//go:noinline
 func Rot(r rune) rune { return r }
 
 //go:noinline
@@ -448,6 +466,34 @@ func TestC01Library(t *testing.T) {
 				break
 			}
 		}
+	}
+	// method values whose names end in the letters of the "-fm" marker the toolchain appends to them, next to methods
+	// named like their beginnings: exactly the method given is diverted
+	{
+		mt := &MT{base: 1}
+		type mv struct {
+			name string
+			f    interface{}
+		}
+		all := func() [6]int { return [6]int{mt.Half(1), mt.Hal(1), mt.Printf(1), mt.Print(1), mt.Perform(1), mt.Sum(1)} }
+		orig := all()
+		for i, m := range []mv{{"Half", mt.Half}, {"Hal", mt.Hal}, {"Printf", mt.Printf}, {"Print", mt.Print}, {"Perform", mt.Perform}, {"Sum", mt.Sum}} {
+			bm := mocker.Create()
+			var perr interface{}
+			func() { defer func() { perr = recover() }(); bm.Func(m.f).Return(7000 + i) }()
+			got := all()
+			want := orig
+			want[i] = 7000 + i
+			rep.Eval(1)
+			if perr != nil || got != want {
+				rep.Violate("C01/method-value-target-not-diverted", fmt.Sprintf("Func(obj.%s).Return(%d): panic %v; (Half, Hal, Printf, Print, Perform, Sum) = %v, want %v", m.name, 7000+i, perr, got, want), nil)
+			}
+			bm.Reset()
+			if got := all(); got != orig {
+				rep.Violate("C01/not-original-after-reset", fmt.Sprintf("after Reset of the mock of method value %s: %v, want %v", m.name, got, orig), nil)
+			}
+		}
+		rep.Class("method-value-target/names-ending-in-f-or-m")
 	}
 	// pointers to stack variables as arguments while the stack is moved inside the replacement
 	moved := 0
